@@ -250,6 +250,28 @@ func judge(p prediction, got yang.YangRange, fd int, errText string) *fail {
 		if err != nil || !back.Equal(got) {
 			return &fail{"printed-set-reads-back-differently", got.String(), fmt.Sprint(back, err)}
 		}
+		if fd > 0 {
+			// equality is about the numbers, not about how many fraction digits carry them: the same
+			// text read at another precision is an equal set, the same mantissas at another
+			// precision are another set (unless every bound is zero)
+			if fd < 18 {
+				if finer, err := yang.ParseRangesDecimal(got.String(), uint8(fd+1)); err == nil && (!finer.Equal(got) || !got.Equal(finer)) {
+					return &fail{"equal-sets-at-two-precisions-unequal", got.String(), finer.String()}
+				}
+			}
+			shifted := append(yang.YangRange{}, got...)
+			nonzero := false
+			for i := range shifted {
+				shifted[i].Min.FractionDigits = uint8(fd%18 + 1)
+				shifted[i].Max.FractionDigits = uint8(fd%18 + 1)
+				if shifted[i].Min.Value != 0 || shifted[i].Max.Value != 0 {
+					nonzero = true
+				}
+			}
+			if nonzero && (shifted.Equal(got) || got.Equal(shifted)) {
+				return &fail{"different-sets-equal", got.String() + " != " + shifted.String(), "Equal"}
+			}
+		}
 		hull := yang.YangRange{{Min: got[0].Min, Max: got[len(got)-1].Max}}
 		if !hull.Contains(got) {
 			return &fail{"hull-does-not-contain-the-set", "Contains", hull.String() + " vs " + got.String()}
